@@ -256,6 +256,19 @@ class H:
                 body_sync()
                 return rest()
 
+        elif kind == "nested_ctx":
+            # the callback does its awaiting work as the teardown of a scratch context of
+            # its own: when the application goes down under a cancellation this callback
+            # fails with a BaseExceptionGroup of cancellations (neither an Exception nor a
+            # bare cancellation) - the callbacks registered before it must still run (W15_C15_1)
+
+            async def cb() -> None:  # type: ignore[misc]
+                from asphalt.core import Context
+
+                body_sync()
+                async with Context():
+                    add_teardown_callback(rest)
+
         elif kind == "aw_obj":
             # a plain function handing back an awaitable that is not a coroutine
 
@@ -743,7 +756,7 @@ def gen(rng: random.Random, tier: str, prop: str) -> dict:
                 ntd[0] += 1
                 spec: dict[str, Any] = {"id": f"cb{ntd[0]}", "async": rng.random() < 0.5, "dur": rng.choice(DTS[:5])}
                 if rng.random() < 0.25:
-                    spec["kind"] = rng.choice(("sync_aw", "aw_obj"))
+                    spec["kind"] = rng.choice(("sync_aw", "aw_obj", "nested_ctx"))
                 if rng.random() < 0.2:
                     ntd[0] += 1
                     spec["nested"] = {"id": f"cb{ntd[0]}", "async": rng.random() < 0.5, "dur": rng.choice(DTS[:4])}
